@@ -758,6 +758,10 @@ class Processor:
         seen_refs = set()
         unique_nodes: List[NodeCoords] = []
         for delete_nc in delete_nodes:
+            # The coordinates of a wrapper (an expanded Collector member) are
+            # not those of the node it wraps
+            while isinstance(delete_nc.node, NodeCoords):
+                delete_nc = delete_nc.node
             ref = delete_nc.parentref
             if isinstance(delete_nc.parent, list) and isinstance(ref, int):
                 if ref < 0:
